@@ -11,6 +11,7 @@ The `…_partial`-style theorems are stated on the decidable complements `addOpe
 driver evaluates on every operand it is given.
 -/
 import SymVerif.Lemmas.C04MulN
+import SymVerif.Lemmas.C04Bridge
 import SymVerif.Lemmas.C04MulSN
 import SymVerif.Lemmas.C04MaxMinT
 import SymVerif.Lemmas.C04Logic
@@ -36,6 +37,13 @@ theorem addOperandOK_iff {a : Expr} : addOperandOK a = true ↔ (AOK a ∧ exact
       | false => rfl
       | true => exact absurd ((numIsZero_iff hv.1).mp hz) hv.2
     simp [hx, h2, hfd, eqE]
+
+/-- the hypothesis of the Add theorems holds for every exact expression that satisfies the C03
+invariant `inv` (what the library's constructors produce, Props/C03.lean `api_canon`) and is a safe
+summand: the Add theorems cover the whole class `inv ∧ exact ∧ addOperandSafe` -/
+theorem addOperandOK_of_inv {a : Expr} (hi : inv a = true) (hx : exact a = true)
+    (hs : addOperandSafe a = true) : addOperandOK a = true :=
+  addOperandOK_iff.mpr ⟨AOK_of_inv hi hx hs, hx⟩
 
 /-- `add` is total on the fragment and stays inside it -/
 theorem addE_closed {a b : Expr} (ha : addOperandOK a = true) (hb : addOperandOK b = true) :
@@ -104,6 +112,13 @@ theorem addTree_perm (t₁ t₂ : BTree) (hp : t₁.leaves.Perm t₂.leaves)
     (h : ∀ a ∈ t₁.leaves, addOperandOK a = true) : evalT addE t₁ = evalT addE t₂ := by
   have h2 : ∀ a ∈ t₂.leaves, addOperandOK a = true := fun a ha => h a (hp.mem_iff.mpr ha)
   rw [addTree_eq_addN t₁ h, addTree_eq_addN t₂ h2, addN_perm hp h]
+
+/-- the property for sums with the natural hypotheses: all bracketings of all permutations of exact,
+invariant, safe summands agree -/
+theorem addTree_perm_inv (t₁ t₂ : BTree) (hp : t₁.leaves.Perm t₂.leaves)
+    (h : ∀ a ∈ t₁.leaves, inv a = true ∧ exact a = true ∧ addOperandSafe a = true) :
+    evalT addE t₁ = evalT addE t₂ :=
+  addTree_perm t₁ t₂ hp (fun a ha => addOperandOK_of_inv (h a ha).1 (h a ha).2.1 (h a ha).2.2)
 
 /-- the n-ary constructor is total on the fragment and stays inside it -/
 theorem addN_closed {l : List Expr} (h : ∀ a ∈ l, addOperandOK a = true) :
